@@ -29,6 +29,10 @@ func ValueOf(query *Query, current Map, any any) (any, error) {
 				// }
 				return nil, err
 			}
+			// a column that names a common table expression reads its rows
+			if cte, ok := rs.(CteEvaluation); ok {
+				return cte()
+			}
 			return rs, nil
 		}
 	case NeutalString:
